@@ -82,6 +82,18 @@ Definition r_verdict (o : outcome verdict * nat) : bytes :=
         end
   end.
 
+Definition r_input (o : outcome ocra_input) : bytes :=
+  match o with
+  | Ok i => s2b "ok:x" ++ hex_of (oi_counter i) ++ s2b ",x" ++ hex_of (oi_challenge i) ++ s2b ",x" ++ hex_of (oi_password i)
+            ++ s2b ",x" ++ hex_of (oi_session i) ++ s2b ",x" ++ hex_of (oi_timestamp i)
+  | Err e => r_err e
+  | Panic => s2b "panic"
+  end.
+
+Definition r_history (h : list (nat * outcome bytes)) : bytes :=
+  s2b "r:" ++ flat_map (fun '(pos, o) =>
+      dec_of_N (N.of_nat pos) ++ [58] ++ match o with Ok sec => sec | _ => s2b "err" end ++ [59]) h.
+
 (** ---- per-operation domain of the property theorems (outside it a disagreement is model
     drift, not a violation: the property says nothing there) ---- *)
 Definition skew_of (p : option param) (d : param) : N := p_skew (match p with Some p => p | None => d end).
@@ -141,6 +153,40 @@ Definition parse_urlparam (f : list bytes) (i : nat) : urlparam :=
 Definition gen_url (kind : bytes) (p : urlparam) : outcome url :=
   if bytes_eqb kind (s2b "t") then generate_totp_url p else generate_hotp_url p.
 
+(** ---- chains: generate, then validate the returned string; overwritten suites; short reads ---- *)
+Definition r_gv (code : bytes) (v : outcome verdict * nat) : bytes := r_verdict v ++ [124] ++ hex_of code.
+Definition run_fields6 (f : list bytes) : bytes * bool :=
+  let a i := fld f i in
+  let op := a 0%nat in
+  if bytes_eqb op (s2b "gvhotp") then
+    let p := parse_param (a 4%nat) in
+    let sk := skew_of p default_hotp_param in
+    (match generate_hotp (unhx (a 1%nat)) (parse_N (a 2%nat)) p with
+     | Ok code => r_gv code (validate_hotp (unhx (a 1%nat)) code (parse_N (a 3%nat)) p)
+     | Err e => r_err e | Panic => s2b "panic" end,
+     (10 <? sk) || (parse_N (a 3%nat) + sk <? two64))
+  else if bytes_eqb op (s2b "gvtotp") then
+    let p := parse_param (a 4%nat) in
+    let t1 := parse_time_sec (a 2%nat) in let t2 := parse_time_sec (a 3%nat) in
+    let sk := skew_of p default_totp_param in
+    (match generate_totp (unhx (a 1%nat)) t1 p with
+     | Ok code => r_gv code (validate_totp (unhx (a 1%nat)) code t2 p)
+     | Err e => r_err e | Panic => s2b "panic" end,
+     (0 <=? t1)%Z && (t1 <? two62z)%Z && (0 <=? t2)%Z && (t2 <? two62z)%Z && ((10 <? sk) || (sk <=? Z.to_N t2 / period_of p)))
+  else if bytes_eqb op (s2b "gvocra") then
+    let cfg := parse_suite (a 2%nat) in
+    (match generate_ocra (unhx (a 1%nat)) cfg (parse_input (a 3%nat)) with
+     | Ok code => r_gv code (validate_ocra (unhx (a 1%nat)) code cfg (parse_input (a 4%nat)))
+     | Err e => r_err e | Panic => s2b "panic" end, true)
+  else if bytes_eqb op (s2b "gocra_mut") then
+    (r_bytes (generate_ocra (unhx (a 2%nat)) (parse_suite (a 3%nat)) (parse_input (a 4%nat))), true)
+  else if bytes_eqb op (s2b "vocra_mut") then
+    (r_verdict (validate_ocra (unhx (a 2%nat)) (unhx (a 3%nat)) (parse_suite (a 4%nat)) (parse_input (a 5%nat))), true)
+  else if bytes_eqb op (s2b "randchunk") then
+    let buf := unhx (a 1%nat) in
+    (r_history (run_calls (fun i => nth i buf 0) 0 (map parse_N (split_on 44 (a 3%nat)))), true)
+  else (s2b "unknown-op", true).
+
 Definition run_fields5 (f : list bytes) : bytes * bool :=
   let a i := fld f i in
   let op := a 0%nat in
@@ -179,7 +225,7 @@ Definition run_fields5 (f : list bytes) : bytes * bool :=
   else if bytes_eqb op (s2b "algstr") then (s2b "ok:n" ++ dec_of_N (algorithm_from_str (unhx (a 1%nat))), true)
   else if bytes_eqb op (s2b "algname") then (s2b "ok:" ++ hex_of (alg_string (parse_N (a 1%nat))), true)
   else if bytes_eqb op (s2b "digint") then (s2b "ok:n" ++ dec_of_N (parse_N (a 1%nat)), true)
-  else (s2b "unknown-op", true).
+  else run_fields6 f.
 
 Definition run_fields4 (f : list bytes) : bytes * bool :=
   let a i := fld f i in
@@ -196,18 +242,6 @@ Definition run_fields4 (f : list bytes) : bytes * bool :=
     secret nor expected code; the model's answer is the constant "clean" (C13 theorems). *)
 Definition run_fields3 (f : list bytes) : bytes * bool :=
   if bytes_eqb (fld f 0) (s2b "scan") then (s2b "clean", true) else run_fields4 f.
-
-Definition r_input (o : outcome ocra_input) : bytes :=
-  match o with
-  | Ok i => s2b "ok:x" ++ hex_of (oi_counter i) ++ s2b ",x" ++ hex_of (oi_challenge i) ++ s2b ",x" ++ hex_of (oi_password i)
-            ++ s2b ",x" ++ hex_of (oi_session i) ++ s2b ",x" ++ hex_of (oi_timestamp i)
-  | Err e => r_err e
-  | Panic => s2b "panic"
-  end.
-
-Definition r_history (h : list (nat * outcome bytes)) : bytes :=
-  s2b "r:" ++ flat_map (fun '(pos, o) =>
-      dec_of_N (N.of_nat pos) ++ [58] ++ match o with Ok sec => sec | _ => s2b "err" end ++ [59]) h.
 
 (** operations added after the first batch: utils, random secrets *)
 Definition run_fields2 (f : list bytes) : bytes * bool :=
